@@ -9,7 +9,7 @@ def strip_share(v):
     if isinstance(v, dict):
         if 'share' in v:
             return strip_share(v['v'])
-        return {k: strip_share(x) for k, x in v.items()}
+        return {k: strip_share(x) for k, x in v.items() if k != 'ba'}
     if isinstance(v, list):
         return [strip_share(x) for x in v]
     return v
@@ -48,6 +48,22 @@ def leaf_identity(a, b):
     if isinstance(a, (set, frozenset)):
         return True
     return a is b
+
+
+def with_bytearrays(rng, v):
+    """some bytes leaves (values / sequence members, never keys or set members) become bytearrays:
+    a mutable buffer is a leaf like any other non-string — it must come back as the same object."""
+    if isinstance(v, dict):
+        if 'b' in v:
+            return {**v, 'ba': True} if rng.random() < 0.5 else v
+        if 'l' in v or 't' in v:
+            t = 'l' if 'l' in v else 't'
+            return {**v, t: [with_bytearrays(rng, x) for x in v[t]]}
+        if 'd' in v:
+            return {**v, 'd': [[k, with_bytearrays(rng, x)] for k, x in v['d']]}
+        if 'share' in v:
+            return {**v, 'v': with_bytearrays(rng, v['v'])}
+    return v
 
 
 class ListSub(list):
@@ -108,6 +124,11 @@ class Prop(PropBase):
                 shared = {'share': 1, 'v': G.gen_tree(rng, 2, lambda g: G.gen_leaf_fmt(g, avail, cmap, 0.3))}
                 val = {'l': [shared, val, shared]} if rng.random() < 0.5 else \
                       {'d': [['first', shared], ['mid', val], ['again', shared]]}
+            if rng.random() < 0.3:
+                if rng.random() < 0.4:
+                    val = {'l': [val, {'b': rng.choice(['raw', '{a}', 'buf'])}]} if rng.random() < 0.5 else \
+                          {'d': [['tree', val], ['buf', {'b': rng.choice(['raw', '{a}', ''])}]]}
+                val = with_bytearrays(rng, val)
             cases.append({'ctx': pairs, 'val': val,
                           'dict_cls': rng.choice(['dict', 'dict', 'CommentedMap', 'OrderedDict']),
                           'list_cls': rng.choice(['list', 'list', 'CommentedSeq', 'UserList']),
